@@ -1,6 +1,8 @@
 // world_ops.cpp -- sending nodes: capture modules (real Encoder) with the sender-side oracles,
 // and the stub peers (raw CMP writer, TECMP writer)
 #include "world_int.h"
+#include <cstdio>
+#include <cstdlib>
 
 #include <cstring>
 
@@ -82,7 +84,8 @@ void World::opEnc(const Item& op)
         b.msgId = static_cast<uint32_t>(m.get("id", 1));
         b.mtype = static_cast<uint8_t>(m.has("mtype") ? m.get("mtype") : defaultMtype(kind));
         b.ptype = static_cast<uint8_t>(m.has("ptype") ? m.get("ptype") : defaultPtype(kind));
-        if (b.mtype == 0)
+        const bool unrestricted = is("C09") || is("C10");  // these two quantify over arbitrary batches; the others exclude type 0 and empty payloads
+        if (b.mtype == 0 && !(unrestricted && m.get("mtype0", 0)))
             b.mtype = 1;
         if (b.ptype == 0)
             b.ptype = 1;
@@ -100,13 +103,15 @@ void World::opEnc(const Item& op)
         b.ts = static_cast<uint64_t>(m.get("ts", 0));
         b.id32 = static_cast<uint32_t>(m.get("ifid", 0));
         b.flags = static_cast<uint8_t>(m.get("flags", 0)) & static_cast<uint8_t>(~wire::FLAG_ERR_IN_PAYLOAD);
-        size_t len = static_cast<size_t>(std::min<int64_t>(std::max<int64_t>(1, m.get("len", 1)), 65535));
+        size_t len = static_cast<size_t>(std::min<int64_t>(std::max<int64_t>(unrestricted && m.get("zerolen", 0) ? 0 : 1, m.get("len", 1)), 65535));
         const int64_t rep = std::min<int64_t>(std::max<int64_t>(1, m.get("rep", 1)), 20000);
         for (int64_t q = 0; q < rep; ++q)
         {
             model::BatchMsg c = b;
             c.msgId = b.msgId + static_cast<uint32_t>(q);
             c.payload = makePayload(kind, len, c.msgId);
+            if (len == 0)
+                c.payload.clear();  // (only C09 / C10 batches: an empty payload)
             if (kind == wire::K_IFSTAT && m.has("pifid") && c.payload.size() >= 4)
                 wire::wr32(c.payload.data(), static_cast<uint32_t>(m.get("pifid")));
             if (m.has("tailx") && !c.payload.empty())
@@ -157,6 +162,14 @@ void World::opEnc(const Item& op)
         violate("life.fork-diverged", "a copy of the encoder given the same batch returned other frames than the original");
     res.apiCalls++;
     n.encodeCalls++;
+    if (getenv("SIM_TRACE"))  // debugging aid for replayed plans; never set by the checks
+        for (auto& fr : frames)
+        {
+            fprintf(stderr, "TRACE frame %zu bytes:", fr.size());
+            for (size_t i = 0; i < fr.size() && i < 96; ++i)
+                fprintf(stderr, " %02x", fr[i]);
+            fprintf(stderr, "\n");
+        }
     ev(0xE0C0 + frames.size());
 
     // ----- probes about the batch
@@ -181,6 +194,10 @@ void World::opEnc(const Item& op)
         }
         if (b.payload.size() == 65535)
             probe("payload-65535");
+        if (b.payload.empty())
+            probe("packet-with-empty-payload");
+        if (b.mtype == 0)
+            probe("packet-with-message-type-0");
     }
     if (batch.empty())
         probe("empty-batch");
@@ -252,10 +269,16 @@ void World::opEnc(const Item& op)
                 wire::FrameParse fp = wire::parseFrame(frames[f].data(), frames[f].size());
                 if (!fp.msgs.empty() && nonEmpty < w.structure.size())
                 {
-                    const uint8_t mt = batch[w.structure[nonEmpty][0].pkt].mtype;
-                    if (h.mtype != mt)
-                        violate("hdr.type", "frame " + std::to_string(f) + " announces message type " + model::hex(h.mtype) +
-                                                " but carries messages of type " + model::hex(mt));
+                    for (auto& pm : w.structure[nonEmpty])
+                    {
+                        const uint8_t mt = batch[pm.pkt].mtype;
+                        if (h.mtype != mt)
+                        {
+                            violate("hdr.type", "frame " + std::to_string(f) + " announces message type " + model::hex(h.mtype) +
+                                                    " but carries a message of type " + model::hex(mt));
+                            break;
+                        }
+                    }
                     ++nonEmpty;
                 }
             }
